@@ -15,7 +15,12 @@ def module(ctx):
     return G['m']
 def native(ctx): return ctx.native(NATIVE_SRCS, 'SF.cpp')
 def run(fname, args, intercept=None, pre=(), limits=None, state=None, interp=None, **kw):
-    it = interp or Interp(G['m'], intercept=intercept, limits=limits, **kw); st = state or it.new_state(); st.pc += list(pre)
+    it = interp or Interp(G['m'], intercept=intercept, limits=limits, **kw)
+    if state is None:
+        st = it.new_state()
+        st, _ = it.run_global_ctors(st, 'Special_Functions')      # FactorialList = {1.0} is a dynamic initialiser
+    else: st = state
+    st.pc += list(pre)
     args = [a(st) if callable(a) else a for a in args]
     return it, it.execute(fname, args, st)
 def sf(op, a=0.0, b=0.0, c=0.0, i=0, j=0, **kw):
